@@ -405,7 +405,10 @@ def run(ctx):
     # format consumes (the message `naming a type` is built from these arguments)
     from . import c10
     r8 = c10.r10_14(prog, rid="R08.8", floor=30, what="the runtime (constraint failure callbacks, debug and print helpers)")
-    return [r1, r2, r3, r4, r08_5(prog), r6, r08_7(ctx.prog("K")), r8]
+    # R08.9: a member's checker is given the member's type descriptor (rule R04.12 over the constraint slots)
+    from . import c04
+    r9 = c04.r04_12(prog, "default", rid="R08.9", slots={"general_constraints"}, floor=6)
+    return [r1, r2, r3, r4, r08_5(prog), r6, r08_7(ctx.prog("K")), r8, r9]
 
 
 GENERIC_CHECKERS = ("asn_generic_no_constraint", "asn_generic_unknown_constraint")
